@@ -101,3 +101,63 @@ func smpRestarts(c *Ctx) {
 		}
 	}
 }
+
+// an abort TLV ends the receiver's run whatever its value looks like (libotr sends an empty value; others send an
+// empty MPI list or more): the abort of the initiator is lost, a deviant one built by the reference sender arrives
+// instead, then the initiator starts again with the same secret
+func smpDeviantAborts(c *Ctx) {
+	sec := []byte("same secret")
+	values := [][]byte{{}, {0, 0, 0, 0}, {0, 0, 0, 1, 0, 0, 0, 1, 5}, {0, 0, 0, 2}, {0xff}}
+	for _, pol := range []int{polV3, polV2} {
+		for vi, val := range values {
+			for k := 1; k <= 2; k++ {
+				pols := []int{pol, pol}
+				s := newSys(pols, c.R.U64())
+				if !s.Handshake(1, 2) {
+					continue
+				}
+				trig := fmt.Sprintf("v%d,value=%x,after=%d", versionOf(pol), val, k)
+				s.StartSMP(1, "", sec)
+				from, to := 1, 2
+				for st := 0; st < k; st++ {
+					idx := s.next(from)
+					if idx < 0 {
+						break
+					}
+					s.Deliver(from, idx, to, MNone)
+					if otr3.VerifSnapshot(s.ps[2].c).SMPState == 5 && k > 1 {
+						s.ProvideSMP(2, sec)
+					}
+					from, to = to, from
+				}
+				// what is in flight is lost, and so is the initiator's own abort
+				s.dropFrom(1, s.ps[1].pending)
+				s.dropFrom(2, s.ps[2].pending)
+				lo := len(s.ps[1].outs)
+				s.AbortSMP(1)
+				s.dropFrom(1, lo)
+				val := val
+				s.record(1, fmt.Sprintf("OSendTLVs 1 %d [TSmp 6 {| sp_question := None; sp_vals := [] |}]", s.now), fmt.Sprintf("SendTLV(1, type 6, value %x)", val),
+					func(p *Party) ([]byte, []otr3.ValidMessage, error) {
+						o, e := otr3.VerifSendTLVs(p.c, []otr3.VerifTLV{{Type: 6, Length: uint16(len(val)), Value: val}})
+						return nil, o, e
+					})
+				s.Pump(1, 2, 6)
+				if st := otr3.VerifSnapshot(s.ps[2].c).SMPState; st != 1 && st != 0 {
+					c.Violate("smp-wedged", trig, fmt.Sprintf("an abort TLV with value %x left the receiver's run in progress (state %d)", val, st), s.trace)
+				}
+				evA, evB := smpRun(c, s, 1, 2, "", sec, sec)
+				if s.panicked {
+					c.Violate("panic", "smp-deviant-abort:"+trig, "panic after an abort TLV with a deviant value", s.trace)
+				} else if !(has(evA, 6) && has(evB, 6)) {
+					c.Violate("smp-wedged", trig, fmt.Sprintf("after an abort TLV with value %x an honest run with equal secrets did not succeed (events %v / %v)", val, evA, evB), s.trace)
+				}
+				if vi < 2 {
+					c.AddScenario(s, pols)
+				}
+				c.Count("smp-deviant-abort")
+				c.Rep.Evaluations++
+			}
+		}
+	}
+}
